@@ -102,6 +102,11 @@ func MakeLiteral(key string) []byte {
 			"\r\nX-Verif-Key: " + key + "\r\nDate: Mon, 02 Jan 2006 12:00:00 +0000\r\nMIME-Version: 1.0\r\nContent-Type: text/plain; charset=utf-8\r\n" +
 			"Content-Transfer-Encoding: base64\r\n\r\n%%% body of " + key + " is not base64 %%%\r\n")
 	}
+	if strings.HasPrefix(key, "v") {
+		// declared multipart, but no boundary parameter: the parts cannot be enumerated
+		return []byte("From: sender-" + key + "@example.org\r\nTo: rcpt@example.org\r\nSubject: msg " + key +
+			"\r\nX-Verif-Key: " + key + "\r\nDate: Mon, 02 Jan 2006 12:00:00 +0000\r\nMIME-Version: 1.0\r\nContent-Type: multipart/mixed\r\n\r\nbody of " + key + "\r\n")
+	}
 	return []byte("From: sender-" + key + "@example.org\r\nTo: rcpt@example.org\r\nSubject: msg " + key +
 		"\r\nX-Verif-Key: " + key + "\r\nDate: Mon, 02 Jan 2006 12:00:00 +0000\r\n\r\nbody of " + key + "\r\n")
 }
